@@ -244,7 +244,7 @@ fn grid_check<D: Display>(
             bare_alt = Some(out.to_string());
             if let Some(e) = expect_alt {
                 if out != e {
-                    bads.push(bad(system, "paths-disagree", spec, format!("{spec} gives {} but the reset form is {}", show(out.as_bytes()), show(e.as_bytes()))));
+                    bads.push(bad(system, "paths-disagree", spec, format!("{spec} gives {} but {} is expected", show(out.as_bytes()), show(e.as_bytes()))));
                 }
             }
         } else {
@@ -323,10 +323,12 @@ fn check_style(m: &StyleM, full: bool, evals: &mut u64) -> Vec<Bad> {
         }
     }
 
-    // --- render(): same bytes; alternate flag on this wrapper is left open by the statement
+    // --- render(): same bytes.  The alternate flag selects the reset form on `Style`'s own Display only; what
+    // `render()` returns renders the style under every flag (a `{:#}` that produced something else would not
+    // "reproduce exactly the style")
     if full {
         *evals += N_SPECS;
-        let (_, alt) = grid_check("Style::render", &s.render(), Some(&base), None, &mut buf, &mut bads);
+        let (_, alt) = grid_check("Style::render", &s.render(), Some(&base), Some(&base), &mut buf, &mut bads);
         if let Err(e) = interpret(Sgr::default(), alt.as_bytes()) {
             bads.push(bad("Style::render", "not-pure-sgr", "{:#}", e));
         }
@@ -341,7 +343,7 @@ fn check_style(m: &StyleM, full: bool, evals: &mut u64) -> Vec<Bad> {
     // --- render_reset()
     if full {
         *evals += N_SPECS;
-        let (_, alt) = grid_check("Style::render_reset", &s.render_reset(), Some(&reset), None, &mut buf, &mut bads);
+        let (_, alt) = grid_check("Style::render_reset", &s.render_reset(), Some(&reset), Some(&reset), &mut buf, &mut bads);
         if let Err(e) = interpret(Sgr::default(), alt.as_bytes()) {
             bads.push(bad("Style::render_reset", "not-pure-sgr", "{:#}", e));
         }
@@ -444,6 +446,9 @@ fn check_color_display<D: Display>(system: &'static str, d: &D, c: Col, g: Groun
     if let Err(e) = interpret(Sgr::default(), alt.as_bytes()) {
         bads.push(bad(system, "not-pure-sgr", "{:#}", e));
     }
+    if full && alt != base {
+        bads.push(bad(system, "alternate-flag-changes-bytes", "{:#}", format!("{{:#}} gives {} but {{}} gives {}", show(alt.as_bytes()), show(base.as_bytes()))));
+    }
     match interpret(Sgr::default(), base.as_bytes()) {
         Err(e) => bads.push(bad(system, "not-pure-sgr", "{}", e)),
         Ok(sgr) => {
@@ -494,6 +499,9 @@ fn check_effects(bits: u16, evals: &mut u64) -> Vec<Bad> {
     if let Err(e) = interpret(Sgr::default(), alt.as_bytes()) {
         bads.push(bad("Effects::render", "not-pure-sgr", "{:#}", e));
     }
+    if alt != base {
+        bads.push(bad("Effects::render", "alternate-flag-changes-bytes", "{:#}", format!("{{:#}} gives {} but {{}} gives {}", show(alt.as_bytes()), show(base.as_bytes()))));
+    }
     match interpret(Sgr::default(), base.as_bytes()) {
         Err(e) => bads.push(bad("Effects::render", "not-pure-sgr", "{}", e)),
         Ok(sgr) => {
@@ -511,7 +519,7 @@ fn check_reset(evals: &mut u64) -> Vec<Bad> {
     let mut buf = String::new();
     *evals += 2 * N_SPECS;
     let (a, a_alt) = grid_check("Reset", &Reset, None, None, &mut buf, &mut bads);
-    let (b, b_alt) = grid_check("Reset::render", &Reset.render(), Some(&a), None, &mut buf, &mut bads);
+    let (b, b_alt) = grid_check("Reset::render", &Reset.render(), Some(&a), Some(&a), &mut buf, &mut bads);
     let mut busy = Sgr::default();
     busy.apply(&Sgr::parse_params("1;2;3;4:3;5;7;8;9;91;48;5;200;58;2;1;2;3"));
     for (sys, text) in [("Reset", &a), ("Reset", &a_alt), ("Reset::render", &b), ("Reset::render", &b_alt)] {
